@@ -186,7 +186,7 @@ class C06(Prop):
                    'the static fake world for KFACPreconditioner patches torch.distributed.is_initialized/get_rank/get_world_size/new_group only']
     exhaustive = True
     examples = {'quick': 150, 'thorough': 1500}
-    shards = {'quick': 4, 'thorough': 16}
+    shards = {'quick': 8, 'thorough': 16}
     enum_shards = {'quick': 4, 'thorough': 16}
     required_labels = {'quick': ['kind=grid', 'kind=frac', 'kind=gen', 'kind=hashseed', 'nontrivial=True'],
                        'thorough': ['kind=grid', 'kind=frac', 'kind=gen', 'kind=hashseed', 'nontrivial=True']}
